@@ -72,6 +72,14 @@ M("om-twin-log-exceptions-other-property", "C03,C18,C13", "benign", ("utils.py",
 M("om-twin-eventgroup-repr", "C17", "benign", (V, "class SimpleEventgroup:\n", "class SimpleEventgroup:\n    def __repr__(self):\n        return f\"<SimpleEventgroup {self.id:#x}>\"\n\n"))
 M("om-log-exceptions-catches-base", "C08,C10,C12,C14,C17", "break", ("utils.py", "                except Exception:\n                    self.log.exception(\n                        msg.format(__func__=f.__qualname__, *args, **kwargs)\n                    )\n\n        else:", "                except BaseException:\n                    self.log.exception(\n                        msg.format(__func__=f.__qualname__, *args, **kwargs)\n                    )\n\n        else:"))
 
+_SVC_HEAD = "@dataclasses.dataclass(frozen=True)\nclass Service:\n"
+M("om-memoised-result-carries-uncompared-field", "C05,C13,C19", "break", (C, _SVC_HEAD, "import functools\n\n\n@functools.lru_cache(maxsize=None)\ndef _first_option(service: \"Service\"):\n    return service.options_1[:1]\n\n\n" + _SVC_HEAD))
+M("om-twin-memoised-on-compared-fields", "C05,C13,C19", "benign", (C, _SVC_HEAD, "import functools\n\n\n@functools.lru_cache(maxsize=None)\ndef _ids(service: \"Service\"):\n    return (service.service_id, service.instance_id)\n\n\n" + _SVC_HEAD))
+M("c08-twin-yield-before-the-ids", "C08,C17", "benign", (V, "        addr = await endpoint.addrinfo()\n", "        addr = await endpoint.addrinfo()\n        await asyncio.sleep(0)\n"))
+M("c08-yield-between-id-and-send", "C08", "break", (V, "            msgbuf += hdr.build()\n", "            msgbuf += hdr.build()\n            await asyncio.sleep(0)\n"))
+M("c09-ttl-forever-by-identity", "C04,C05,C06,C09", "break", (S, "        if ttl != TTL_FOREVER:", "        if ttl is not TTL_FOREVER:"))
+M("c09-twin-ttl-forever-not-equal", "C04,C05,C06,C09", "benign", (S, "        if ttl != TTL_FOREVER:", "        if not ttl == TTL_FOREVER:"))
+
 # ---------------------------------------------------------------- C07
 M("c07-ge-to-gt", "C07", "break", (S, "old_session_id >= session_id", "old_session_id > session_id"))
 M("c07-key-without-channel", "C07", "break", (S, "k = (sender, multicast)", "k = (sender,)"))
